@@ -30,6 +30,49 @@ CHECKS["C20"] = {
                    "ReplHighlighter::highlight byte for byte; highlight_check bounded by a window predicate; panics caught and reported",
 }
 
+CHECKS["C11"] = {
+    "engine": "c11",
+    "level": "exploration",
+    "lanes_quick": [("release", None)],
+    "lanes_thorough": [("release", None), ("chk", None)],
+    "floors": {"scans_ok": 10000, "data_parsed": 10000, "prefixes_inside_datum": 10000, "parse_incomplete": 100, "eval_text_loops": 100},
+    "rule": "cases by index mod 8: random Unicode strings (1/8), token soup over 64 lexemes incl. degenerate ones (2/8), character-level "
+            "mutations of prelude.scm slices and of generated well-formed data (2/8), generated well-formed datum sequences with all bracket "
+            "spellings, quote sugar, dotted tails, vectors, number prefixes, comments and odd whitespace (3/8). For each well-formed sequence "
+            "every token-boundary prefix is additionally checked (counted as one evaluation each). A case is non-trivial when its text scans "
+            "and at least one datum of more than one token was parsed; distinct = distinct texts by hash.",
+    "assumptions": TRUSTED_COMMON + [
+        "whitespace is what Rust's char::is_whitespace says, comments run from ';' to end of line (the gap scanner's definition)",
+        "'the tokens of one datum' is decided by an independent bracket-counting delimiter over token types; the consumed-token count is "
+        "compared only when the parser returns Ok, and '#x'-style prefixes followed by a non-atom are treated as malformed (not checked)",
+        "cases run in sandboxed child processes; a child death or 20 s of silence is a violation only if it reproduces twice in isolation at 60 s",
+    ],
+    "explanation": "independent predicates over lex::scan / parse::parse / parse::parse_text / Vm::eval_text calls: span sanity, gap content, "
+                   "consumed-token count vs independent delimiter, remaining-text pointer equality, loop termination and visit count, "
+                   "Incomplete vs error at every token-boundary cut",
+}
+
+CHECKS["C10"] = {
+    "engine": "c10",
+    "level": "exploration",
+    "lanes_quick": [("release", None)],
+    "lanes_thorough": [("release", None), ("chk", None)],
+    "floors": {"roundtrips_completed": 100000, "unicode_scalars_as_char_and_in_string": 10000},
+    "rule": "part 1: Unicode scalar values (quick: all of U+0000..U+2FFF plus every 61st code point of all planes; thorough: all 1,112,064) each as a "
+            "character, inside a string between ASCII letters and as a one-character string; part 2 by index mod 4: a finite double by bit pattern "
+            "(12 distributions incl. the 1e10 notation switch +-3 ulp, powers of two +-2 ulp, subnormals, extremes), a number of any representation "
+            "(fixnum boundaries, bignums of 62..256 bits, non-canonical small bignums, reduced rationals), or a recursive datum of depth <= 6 "
+            "(lists, improper lists, vectors, quote/quasiquote/unquote forms, strings and chars over all of Unicode, symbols whose spelling the "
+            "reader itself classifies as that symbol). Each datum goes through four round trips (write->read, re-write, eval of (quote d), "
+            "eval_text of its source). Non-trivial = all four round trips ran to completion; distinct = distinct written texts by hash.",
+    "assumptions": TRUSTED_COMMON + [
+        "identity of data is the harness's strict comparison: structure, numbers by exact value and exactness (BigRational), doubles by bit pattern",
+        "'symbols that the reader can produce' is decided by the reader: a candidate spelling is used only if parse_text returns that symbol",
+        "NaN and infinities are excluded (the property says finite doubles)",
+    ],
+    "explanation": "format!(\"{:#}\") / parse::parse_text / Vm::eval / Vm::eval_text composed four ways and compared with a strict structural identity",
+}
+
 # ---- texts for MANIFEST.json (tools/gen_manifest.py) ----
 MANIFEST_TEXT = {}
 NOT_APPLICABLE = {}
@@ -42,4 +85,24 @@ MANIFEST_TEXT["C20"] = {
                   "This is exhaustive exploration of a bounded input space, not a proof for all texts.",
     "level_note": "Trusts marwood's scanner for the token stream (C11 monitors it), the harness's own partner finder, and rustc. "
                   "Loose wording in the property is read in the most permissive way so the check never demands more than the statement.",
+}
+
+MANIFEST_TEXT["C11"] = {
+    "technique": "runtime monitoring: per-call invariant predicates (span/gap/consumption/remaining-text/incompleteness) over random, soup, mutated and generated well-formed inputs, in sandboxed child processes (hang/abort observer)",
+    "design_ref": "DESIGN.md 6 C11",
+    "level_text": "Millions of reader calls are observed and every call is judged by independent predicates (gap scanner, bracket-counting delimiter, "
+                  "pointer-equality of the remaining text). The incompleteness clause is checked at every token boundary of every generated "
+                  "well-formed sequence. Exploration: it says the contract held on the texts produced, not on all texts.",
+    "level_note": "Trusts the harness's delimiter and gap scanner (about 80 lines), Rust's Unicode tables, and the process sandbox. Lexer-level "
+                  "Incomplete (unterminated string) is not second-guessed because that would need an independent lexer.",
+}
+
+MANIFEST_TEXT["C10"] = {
+    "technique": "runtime monitoring: round-trip oracle (write/read/re-write/quote-eval) with a strict identity comparison over generated data, all Unicode scalars and doubles by bit pattern",
+    "design_ref": "DESIGN.md 6 C10",
+    "level_text": "Each generated datum is pushed through the real printer, reader and VM heap and compared with itself under a comparison stricter than "
+                  "the library's own equality. Reach comes from the generator (all character classes exhaustively in thorough, doubles by bit pattern "
+                  "around every format switch). Exploration, not proof.",
+    "level_note": "Trusts the strict comparison (60 lines), num's BigRational for exact values, and that the generator's symbol filter (the reader itself) "
+                  "matches the property's 'symbols that the reader can produce'.",
 }
